@@ -53,6 +53,47 @@ package executor
 //@ trusted field:github.com/99designs/gqlgen/graphql/executor.extensions.operationMiddleware(ctx, next) (h)
 //@ trusted field:github.com/99designs/gqlgen/graphql/executor.extensions.responseMiddleware(ctx, next) (r)
 
+// ---------------------------------------------------------------- validate
+// gqlparser's rule list is a package-level variable. It is changed only inside the once-function, under the write
+// lock; every validation reads it under the read lock (released on every exit). C03: no request is validated
+// against a half-replaced rule list, whatever runs concurrently.
+//@ trusted (*sync.Once).Do(f)
+//@   modifies nothing
+//@ trusted (*sync.RWMutex).Lock()
+//@   modifies nothing
+//@ trusted (*sync.RWMutex).Unlock()
+//@   modifies nothing
+//@ trusted (*sync.RWMutex).RLock()
+//@   modifies nothing
+//@ trusted (*sync.RWMutex).RUnlock()
+//@   modifies nothing
+//@ trusted github.com/vektah/gqlparser/v2/validator.RemoveRule(name)
+//@   modifies nothing
+//@ trusted github.com/vektah/gqlparser/v2/validator.ReplaceRule(name, f)
+//@   modifies nothing
+//@ func validate [C03,C07]
+//@   modifies nothing
+//@   ghost rl = false
+//@   at! `validationRulesMu.RLock()` ghost rl = true
+//@   at! `defer validationRulesMu.RUnlock()` requires rl
+//@   at! `validator.Validate(schema, doc)` requires rl && arg0 == schema && arg1 == doc
+//@   callsite RemoveRule: requires false
+//@   callsite ReplaceRule: requires false
+//@   callsite AddRule: requires false
+//@   ensures len(res0) == 0 ==> isValidated(doc)
+//@   ensures calls(Validate) == 1 && calls(RLock) == 1 && calls(RUnlock) == 1
+//@   ensures calls(Do) <= 1 && (!disableSuggestion ==> calls(Do) == 0)
+//@ func validate$1 [C03,C07]
+//@   ghost wl = false
+//@   at! `validationRulesMu.Lock()` ghost wl = true
+//@   at! `defer validationRulesMu.Unlock()` requires wl
+//@   callsite RemoveRule: requires wl
+//@   callsite ReplaceRule: requires wl
+//@   ensures calls(Lock) == 1 && calls(Unlock) == 1
+// C07: what a server answers must not depend on what other requests (of any server in the process) were served
+// before; rewriting the process-global rule list while serving is such a memory (known finding D14)
+//@   at `validator.RemoveRule("FieldsOnCorrectType")` requires @C07 false
+
 // ---------------------------------------------------------------- parseQuery
 // C03: a document is only ever stored in the cache after validator.Validate returned no error for *that* document
 // and under the key it was parsed from; what is returned without errors is either such a cache entry or the document
@@ -64,7 +105,12 @@ package executor
 //@   at `e.queryCache.Get(ctx, query)` requires arg1 == query
 //@   at `e.queryCache.Add(ctx, query, doc)` requires arg1 == query
 //@   at `parser.ParseQueryWithTokenLimit(&ast.Source{Input: query}, e.parserTokenLimit)` requires arg0.Input == query
-//@   at `validator.Validate(e.es.Schema(), doc)` requires arg1 == doc
+//@   at! `validate(e.es.Schema(), doc, e.disableSuggestion)` requires arg1 == doc
+// serving a request never touches gqlparser's process-global rule list directly
+//@   callsite RemoveRule: requires false
+//@   callsite ReplaceRule: requires false
+//@   callsite AddRule: requires false
+//@   callsite Validate: requires false
 //@   ensures len(res1) == 0 ==> res0 != nil && isParsedFrom(res0, query) && isValidated(res0)
 //@   ensures len(res1) != 0 ==> res0 == nil
 //@   ensures calls(Add) <= 1
